@@ -763,6 +763,7 @@ ly_ctx_get_modules_hash(const struct ly_ctx *ctx)
         }
 
         /* enabled features */
+        fi = 0;
         while ((f = lysp_feature_next(f, mod->parsed, &fi))) {
             if (f->flags & LYS_FENABLED) {
                 hash = lyht_hash_multi(hash, f->name, strlen(f->name));
